@@ -18,6 +18,10 @@ after `Shutdown` (the storage client may be closed).
 -/
 namespace OtelVerif.C02
 
+/-- `getItemKey(index)` = `strconv.FormatUint(index, radix)`: the storage key of the request with that index (for
+radix ≤ 10 `Nat.toDigits` is exactly the Go function) -/
+def itemKey (radix i : Nat) : String := String.ofList (Nat.toDigits radix i)
+
 /-- `putInternal` after the loop: store, `writeIndex++`, `queueSize += reqSize`, `hasMoreElements.Signal()` -/
 def paccept (s : St) (p : Nat) (el : Int) : St :=
   { s with size := s.size + el, items := s.items ++ [(p, el)], accepted := s.accepted ++ [p],
